@@ -31,7 +31,7 @@ def run_mutant(mut):
         shutil.copytree(
             os.path.join(REPO, "iodata"),
             os.path.join(scratch, "iodata"),
-            ignore=shutil.ignore_patterns("__pycache__"),
+            ignore=shutil.ignore_patterns("__pycache__", "test"),
         )
         path = os.path.join(scratch, relfile)
         text = open(path).read()
